@@ -11,6 +11,7 @@ import (
 	"path"
 	"sort"
 	"strings"
+	"sync/atomic"
 	"testing/synctest"
 	"time"
 )
@@ -149,7 +150,12 @@ type Sim struct {
 	KnownWhat map[string]string
 }
 
+// CurrentTape is the tape of the most recently created simulator (read by
+// the real-time lock-up observer, which lives outside the bubble).
+var CurrentTape atomic.Pointer[Tape]
+
 func NewSim(t *Tape) *Sim {
+	CurrentTape.Store(t)
 	return &Sim{
 		Tape:    t,
 		wake:    make(chan struct{}, 1),
@@ -372,9 +378,16 @@ func (s *Sim) Stop() { s.mu.Lock(); s.stopped = true; s.mu.Unlock() }
 // Run drives the simulation until done() holds at quiescence, or a cap is
 // hit. It must be called from the goroutine that owns the bubble. Returns
 // true if done() was reached.
+// ProgressHook, when set, is called once per scheduler iteration (after the
+// bubble went quiescent): a sign of life for a real-time observer.
+var ProgressHook func()
+
 func (s *Sim) Run(done func() bool) bool {
 	for {
 		synctest.Wait()
+		if ProgressHook != nil {
+			ProgressHook()
+		}
 		if s.Invariant != nil {
 			s.Invariant()
 		}
